@@ -267,6 +267,59 @@ fn request_case(cs: &mut Cases, encs: &[&str], ct: Option<&str>) {
     }
 }
 
+/// the deserializers generated endpoints use for bodies, with runtimes registering JSON and / or Smile: a body is
+/// decoded only with the registered encoding the Content-Type names, an optional body is absent only when there is no
+/// Content-Type at all, and everything else is rejected
+fn body_decoders_case(cs: &mut Cases, ct: Option<&str>) {
+    use conjure_http::server::conjure::OptionalRequestDeserializer;
+    use conjure_http::server::{DeserializeRequest, JsonEncoding, SmileEncoding, StdRequestDeserializer};
+    let essence = ct.and_then(|c| HeaderValue::from_str(c).ok()).and_then(|h| h.to_str().ok().map(|s| s.to_string())).and_then(|s| MediaType::parse(&s).ok().map(|m| m.essence().to_string().to_ascii_lowercase()));
+    let named: Option<u8> = match essence.as_deref() {
+        Some("application/json") => Some(0),
+        Some("application/x-jackson-smile") => Some(1),
+        _ => None,
+    };
+    let bodies: [(u8, Vec<u8>); 2] = [(0, b"[1]".to_vec()), (1, serde_smile::to_vec(&vec![1]).unwrap())];
+    for regs in [&[0u8, 1][..], &[0u8][..], &[1u8][..], &[1u8, 0][..]] {
+        for (bk, body) in &bodies {
+            let (ct2, regs2, body2) = (ct.map(|s| s.to_string()), regs.to_vec(), body.clone());
+            let r = guarded(move || {
+                let mut b = ConjureRuntime::builder();
+                for e in &regs2 {
+                    b = if *e == 0 { b.encoding(JsonEncoding) } else { b.encoding(SmileEncoding) };
+                }
+                let rt = b.build();
+                let mut h = HeaderMap::new();
+                if let Some(c) = &ct2 {
+                    if let Ok(v) = HeaderValue::from_str(c) {
+                        h.insert(CONTENT_TYPE, v);
+                    }
+                }
+                let it = || vec![Ok::<_, conjure_error::Error>(bytes::Bytes::from(body2.clone()))].into_iter();
+                let std: Result<Vec<i32>, String> = <StdRequestDeserializer as DeserializeRequest<Vec<i32>, _>>::deserialize(&rt, &h, it()).map_err(|e| e.cause().to_string());
+                let opt: Result<Option<Vec<i32>>, String> = <OptionalRequestDeserializer as DeserializeRequest<Option<Vec<i32>>, _>>::deserialize(&rt, &h, it()).map_err(|e| e.cause().to_string());
+                (std, opt)
+            });
+            cs.push("body-decoders", "noop".into(), "noop".into(), true, format!("runtime registering {:?} (0 = JSON, 1 = Smile), Content-Type {:?}, a {} body", regs, ct, if *bk == 0 { "JSON" } else { "Smile" }));
+            match r {
+                Err(p) => cs.fail_last("request:panic", p),
+                Ok((std, opt)) => {
+                    let decodes = named.map(|n| regs.contains(&n) && n == *bk).unwrap_or(false);
+                    if decodes != (std == Ok(vec![1])) || (!decodes && std.is_ok()) {
+                        cs.fail_last("request:std-deserializer", format!("StdRequestDeserializer with {:?} registered, Content-Type {:?} and a {} body gives {:?}", regs, ct, if *bk == 0 { "JSON" } else { "Smile" }, std));
+                    } else if ct.is_none() {
+                        if opt != Ok(None) {
+                            cs.fail_last("request:optional-deserializer", format!("OptionalRequestDeserializer without a Content-Type gives {:?}, not an absent body", opt));
+                        }
+                    } else if decodes != (opt == Ok(Some(vec![1]))) || (!decodes && opt.is_ok()) {
+                        cs.fail_last("request:optional-deserializer", format!("OptionalRequestDeserializer with {:?} registered, Content-Type {:?} and a {} body gives {:?} (a Content-Type that names no registered encoding is rejected, not read as an absent body)", regs, ct, if *bk == 0 { "JSON" } else { "Smile" }, opt));
+                    }
+                }
+            }
+        }
+    }
+}
+
 fn enc_sets(rng: &mut Rng) -> Vec<&'static str> {
     let n = 1 + rng.below(3);
     let mut v: Vec<&'static str> = vec![];
@@ -348,6 +401,7 @@ pub fn cases(seed: u64, tier: Tier) -> Cases {
     // request side
     let cts = [Some("application/json+xml"), Some("application/x-jackson-smile+json"), Some("application/json+cbor; charset=utf-8"), Some("application/json+json"), Some("application/json"), Some("application/x-jackson-smile"), Some("application/json; charset=utf-8"), Some("APPLICATION/JSON"), Some("application/json;q=0"), Some("text/x"), Some("text/plain"), Some("application/*"), Some("*/*"), Some("application/vnd.foo+json"), Some("application/vnd.foo"), Some("application/foo+json"), Some("garbage"), Some(""), Some("application/json, text/x"), None, Some("application/jsonx"), Some(" application/json")];
     for ct in cts {
+        body_decoders_case(&mut cs, ct);
         for o in orders {
             request_case(&mut cs, o, ct);
         }
